@@ -229,6 +229,7 @@ def run(repo, rep):
     del INPLACE_EVENTS[:]
     _run(repo, rep)
     common.partial_call_rule(repo, rep, [('geodepy.transform', 'conform7')], 'the covariance matrices')
+    common.chained_index_rule(repo, rep, [('geodepy.transform', 'conform7')])
     # in-place array updates met while evaluating the functions above (element type follows the caller's numbers)
     common.dtype_rule(repo, rep, [('geodepy.transform', 'conform7')])
 
